@@ -14,6 +14,8 @@ Normalisations (meaning-preserving, done here):
     module-level string constants are evaluated from the live module;
   * a nested or same-module helper function is inlined at its call: its body (returns, if/else, assignments, the loop
     `for p in L: if not P(p): return False` + `return True`) becomes ONE expression (ELet / EIf);
+  * `a, b = x, y` = two assignments (when the right-hand side reads no target); a dict display with constant keys that is only
+    used as `**kwargs` of str.format = one hidden local per key; `SEP.join(x)` / `x.split()` also apart from each other;
   * `any(not P for ..)` = `not all(P for ..)`; `x == None` = `x is None`; `x is not None` = `not (x is None)`;
   * REGEX.sub(lambda m: ..., data) for a compiled one-byte character class: the class and the lambda are EVALUATED
     (live regex object, lambda compiled from its source) into the substitution table the term carries.
@@ -60,6 +62,7 @@ class Fn:
         self.vars = dict(inputs)
         self.bound = set(inputs)
         self.helpers = {}
+        self.dicts = {}          # local name -> {constant key: hidden variable holding the value at assignment time}
         self.nextvar = max(list(inputs.values()) + [-1]) + 1
         self.names = {v: k for k, v in inputs.items()}
         self.depth = 0
@@ -145,10 +148,14 @@ class Fn:
                 return 'EIsNone (%s)' % E(l)
             if isinstance(r, ast.Constant) and r.value is None and isinstance(op, (ast.IsNot, ast.NotEq)):
                 return 'ENot (EIsNone (%s))' % E(l)
-            if isinstance(op, ast.Eq) and isinstance(l, ast.Attribute) and l.attr == 'tagName':
-                c = self.const_of(r, scope or {})
-                if isinstance(c, str):
-                    return 'ETagNameIs (%s) %s' % (E(l.value), text(c))
+            if isinstance(op, (ast.Eq, ast.NotEq)):
+                def side(x):
+                    if isinstance(x, ast.Attribute) and x.attr == 'tagName':
+                        return 'ETagName (%s)' % E(x.value)
+                    return E(x)
+                if any(isinstance(x, ast.Attribute) and x.attr == 'tagName' for x in (l, r)):
+                    eq = 'EEqStr (%s) (%s)' % (side(l), side(r))
+                    return eq if isinstance(op, ast.Eq) else 'ENot (%s)' % eq
             bad('comparison', e)
         if isinstance(e, ast.JoinedStr):
             parts = []
@@ -222,11 +229,11 @@ class Fn:
                 return 'EReplace1 %d %s (%s)' % (a[0] if isinstance(a, bytes) else ord(a), text(b), E(f.value))
             if f.attr == 'join' and len(e.args) == 1 and not e.keywords:
                 sep = self.const_of(f.value, scope or {})
-                inner = e.args[0]
-                if isinstance(sep, str) and isinstance(inner, ast.Call) and isinstance(inner.func, ast.Attribute) \
-                        and inner.func.attr == 'split' and not inner.args and not inner.keywords:
-                    return 'ESplitJoin %s (%s)' % (text(sep), E(inner.func.value))
-                bad('join() of something other than x.split()', e)
+                if isinstance(sep, str):
+                    return 'EJoin %s (%s)' % (text(sep), E(e.args[0]))
+                bad('join() separator', e)
+            if f.attr == 'split' and not e.args and not e.keywords:
+                return 'ESplitWs (%s)' % E(f.value)
             if f.attr == 'split' and len(e.args) == 1 and not e.keywords:
                 c = self.const_of(e.args[0], scope or {})
                 if isinstance(c, str) and len(c) == 1:
@@ -239,6 +246,11 @@ class Fn:
                 kw = {}
                 for k in e.keywords:
                     if k.arg is None:
+                        # **fields for a local bound to a dict display with constant keys
+                        if scope is None and isinstance(k.value, ast.Name) and k.value.id in self.dicts:
+                            for key, v in self.dicts[k.value.id].items():
+                                kw[key] = 'EVar %d%%nat' % v
+                            continue
                         bad('format(**x)', e)
                     kw[k.arg] = E(k.value)
                 parts = []
@@ -380,8 +392,37 @@ class Fn:
                 if not isinstance(c, str) or tgt.value.id not in self.bound:
                     bad('tagName assignment', st)
                 return 'SSetTagName %d%%nat %s' % (self.vars[tgt.value.id], text(c))
+            if isinstance(tgt, ast.Tuple) and isinstance(st.value, ast.Tuple) and len(tgt.elts) == len(st.value.elts) \
+                    and all(isinstance(x, ast.Name) for x in tgt.elts):
+                # a, b = x, y  with no target read on the right-hand side: two assignments
+                names = {x.id for x in tgt.elts}
+                if len(names) != len(tgt.elts) or any(isinstance(n, ast.Name) and n.id in names for v in st.value.elts for n in ast.walk(v)):
+                    bad('tuple assignment whose right-hand side reads a target', st)
+                vals = [self.xml_or_expr(v) for v in st.value.elts]
+                out = ['SAssign %d%%nat (%s)' % (self.bind(x.id), v) for x, v in zip(tgt.elts, vals)]
+                r = out[-1]
+                for o in reversed(out[:-1]):
+                    r = 'SSeq (%s) (%s)' % (o, r)
+                return r
             if not isinstance(tgt, ast.Name):
                 bad('assignment target', st)
+            if isinstance(st.value, ast.Dict) and all(isinstance(k, ast.Constant) and isinstance(k.value, str) for k in st.value.keys):
+                # a dict display with constant keys, only ever used as **kwargs of str.format: one hidden local per key
+                vals = [self.expr(v) for v in st.value.values]
+                d, out = {}, []
+                for k, v in zip(st.value.keys, vals):
+                    n = self.fresh('%s[%r]' % (tgt.id, k.value))
+                    d[k.value] = n
+                    out.append('SAssign %d%%nat (%s)' % (n, v))
+                self.dicts[tgt.id] = d
+                self.bound.discard(tgt.id)
+                if not out:
+                    return None
+                r = out[-1]
+                for o in reversed(out[:-1]):
+                    r = 'SSeq (%s) (%s)' % (o, r)
+                return r
+            self.dicts.pop(tgt.id, None)
             val = self.xml_or_expr(st.value)
             return 'SAssign %d%%nat (%s)' % (self.bind(tgt.id), val)
         if isinstance(st, ast.AugAssign) and isinstance(st.target, ast.Name) and isinstance(st.op, ast.Add):
@@ -417,7 +458,7 @@ class Fn:
         return ', '.join('%s=%d' % (self.names[n], n) for n in sorted(self.names))
 
 
-def deprecate_inputs(fn):
+def deprecate_inputs(fn, module=None):
     """(index of the first statement of the tail, {python name: variable}) -- version = X.public(), package = X.package,
     replacement = ...get_str_value(...), name = the second parameter"""
     body = strip_doc(fn.body)
@@ -438,6 +479,13 @@ def deprecate_inputs(fn):
                     kind = 'package'
                 elif isinstance(val, ast.Call) and isinstance(val.func, ast.Attribute) and val.func.attr == 'get_str_value':
                     kind = 'replacement'
+                elif isinstance(val, ast.Call) and isinstance(val.func, ast.Name) and module is not None:
+                    obj = getattr(module, val.func.id, None)
+                    # a same-module helper that RETURNS ...get_str_value(...) on one of its paths
+                    if inspect.isfunction(obj) and obj.__module__ == module.__name__ and any(
+                            isinstance(m, ast.Return) and isinstance(m.value, ast.Call) and isinstance(m.value.func, ast.Attribute)
+                            and m.value.func.attr == 'get_str_value' for m in ast.walk(fn_ast(obj))):
+                        kind = 'replacement'
                 if kind:
                     if found.get(kind, tgt.id) != tgt.id:
                         bad('two variables hold the ' + kind)
@@ -467,7 +515,7 @@ def generate():
     L += ['(* stanutils.html2stan ; locals: %s *)' % t.locals_comment(), 'Definition code_html2stan : istmt :=', '  ' + code + '.', '']
     # deprecatedToUsefulText, tail
     f = fn_ast(deprecate.deprecatedToUsefulText)
-    start, inputs = deprecate_inputs(f)
+    start, inputs = deprecate_inputs(f, deprecate)
     t = Fn(deprecate, inputs)
     body = strip_doc(f.body)
     for st in body[:start]:
